@@ -173,11 +173,17 @@ def _short(d):
 
 
 def base_worlds(tier, seed):
-    n = 3 if tier == 'quick' else 24
+    n = 2 if tier == 'quick' else 24
     refs, pool, sets = e2e.query_sets(n, 'c10', size=(4, 4))
     if tier != 'quick' or seed:
         sets = sets + e2e.query_sets(1 if tier == 'quick' else 8, 'c10-seed-%d' % seed, size=(4, 4))[2]
-    return [e2e.set_world(refs, pool, s, nrefs=3) for s in sets]
+    ws = [e2e.set_world(refs, pool, s, nrefs=3, short_ref=i % 2 == 1) for i, s in enumerate(sets)]
+    # one base world holds two molecules of the same locus (+ one of another locus + an unalignable one): 4 queries, 3 references
+    sl = e2e.same_locus_worlds()[seed % 4]
+    extra = e2e.worlds.as_map(17, pool[1][1])
+    ws.append(dict(refs=[refs[1], refs[0], refs[2]], queries=[sl['queries'][0], sl['queries'][1], extra, sl['queries'][2]],
+                   desc=sl['desc'] + ['plain']))
+    return ws
 
 
 class Variants(core.Layer):
